@@ -55,6 +55,15 @@ func newStreamer() (*replication.BinlogStreamer, chan *replication.BinlogEvent, 
 
 // binlogValue renders a stored column value the way the replication decoder
 // hands it out (typed integers per column width, strings, nil).
+func indexOf(l []string, x string) int {
+	for i, s := range l {
+		if s == x {
+			return i
+		}
+	}
+	return -1
+}
+
 func binlogValue(col string, v driver.Value) interface{} {
 	if v == nil {
 		return nil
@@ -121,9 +130,21 @@ func liveBody(c *runner.Ctx) {
 	image := func(r mrow) []interface{} {
 		out := make([]interface{}, len(tbl.columns))
 		for i, col := range tbl.columns {
+			if col == "legacy" {
+				// a column the Go struct does not map: a TINYINT, here the
+				// opposite of "active"
+				out[i] = int8(1) - binlogValue("active", r["active"]).(int8)
+				continue
+			}
 			out[i] = binlogValue(col, r[col])
 		}
 		return out
+	}
+	// the table may carry a column the application no longer maps, in front of
+	// the last column; a schema change can drop it
+	if c.Choose(2, "legacy-column") == 1 {
+		n := len(tbl.columns)
+		tbl.columns = append(append(append([]string{}, tbl.columns[:n-1]...), "legacy"), tbl.columns[n-1])
 	}
 	d.afterExec = func(st *stmtRec, before, after []mrow) {
 		if st.table != "users" {
@@ -226,6 +247,12 @@ func liveBody(c *runner.Ctx) {
 			q.lastErr = errKind(err)
 			q.lastIDs = usersString(rows)
 			simrt.Logf("live query %d run %d -> %s %s", q.idx, q.runs, q.lastIDs, q.lastErr)
+			if err != nil && strings.Contains(err.Error(), "SIM-row-stream-broken") {
+				// a transient database error: like the graphql server does for a
+				// re-computation, ask the rerunner to try again
+				c.Probe("live-query-hit-stream-error")
+				return reactive.RetrySentinelError
+			}
 			if err != nil && !errors.Is(err, sql.ErrNoRows) && !strings.Contains(err.Error(), "no more than 1") {
 				return err
 			}
@@ -258,6 +285,18 @@ func liveBody(c *runner.Ctx) {
 	if faulty {
 		c.Class = "schema-changes"
 	}
+	// a result set may break off while rows stream in (a dropped connection):
+	// only while writes are going on, so that the last word is a clean read
+	streamFaults := c.Choose(3, "row-stream-faults") == 1
+	if streamFaults {
+		d.breakRows = func(st *stmtRec, n int) int {
+			if !streamFaults || st.kind != "SELECT" || st.table != "users" || c.Biased(2, 800, "row-stream-breaks") == 0 {
+				return -1
+			}
+			c.Fault("row-stream-error")
+			return c.Choose(n+1, "row-stream-breaks-at")
+		}
+	}
 	var desc []string
 	for k := 0; k < nWrites; k++ {
 		switch c.Choose(3, "write-pause") {
@@ -273,6 +312,13 @@ func liveBody(c *runner.Ctx) {
 			tbl.columns = append(tbl.columns, fmt.Sprintf("extra%d", len(tbl.columns)))
 			tableID++
 			desc = append(desc, "ALTER")
+		} else if legacyAt := indexOf(tbl.columns, "legacy"); faulty && legacyAt >= 0 && c.Biased(3, 800, "schema-drop-column") > 0 {
+			// ALTER TABLE ... DROP COLUMN: events still in flight carry one value
+			// more than the table has columns now
+			c.Fault("schema-drop-column")
+			tbl.columns = append(append([]string{}, tbl.columns[:legacyAt]...), tbl.columns[legacyAt+1:]...)
+			tableID++
+			desc = append(desc, "DROP-COLUMN")
 		} else if faulty && c.Biased(4, 800, "schema-reorder") > 0 && len(pending) == 0 && len(evCh) == 0 {
 			// ALTER TABLE ... MODIFY ... AFTER ...: same number of columns, other
 			// order, new table id. Only done while no event is in flight: a
@@ -353,6 +399,7 @@ func liveBody(c *runner.Ctx) {
 	writesDone = true
 	c.Describe("writes: %s", strings.Join(desc, " "))
 
+	streamFaults = false
 	// ---- quiescence ----
 	for i := 0; i < 3000 && len(pending) > 0; i++ {
 		simrt.Sleep(time.Second)
